@@ -26,7 +26,8 @@
   exact domain of float64 and re-checks that with big.Rat).  `sqrt` is exact on perfect squares only.
   Go map iteration order (groups) is not observable: results are compared sorted by tag set.
 
-  `aggregateRepoAlias`: the pinned tree's engine-side grouping for labels given by the legacy alias key<i> alone
+  `evalChainEarlyRange`: the mutation of seeded/C27-r3-2 (subquery range stored before the operand is evaluated).
+  `aggregateRepoAlias`: the PRE-FIX (before commit 78db24c9) engine-side grouping for labels given by the legacy alias key<i> alone
   (fixes/C27-group-alias.diff); the model's labels are resolved tag indices, i.e. the fixed behaviour.
   `Cfg`: `.repo` is the pinned tree, `.fixed` the tree after fixes/C27-*.diff:
     whatFix   the `what` chosen by a reduction rule reaches the storage query (the pinned tree stores it in
@@ -151,7 +152,7 @@ def aggregate (n : Nat) (f : List Val → Val) (without : Bool) (labels : List N
   (dedupKeys (ss.map (fun s => keyOf without labels s.tags))).map (fun k =>
     { tags := k, vals := (columns n (ss.filter (fun s => keyOf without labels s.tags = k))).map f })
 
-/-- aggregateAt0 on the PINNED tree (before fixes/C27-group-alias.diff) when some labels are given only by the legacy alias
+/-- PRE-FIX witness only, not part of any evaluated variant: aggregateAt0 before fixes/C27-group-alias.diff (/repo 78db24c9) when some labels are given only by the legacy alias
     key<i> (`aliasOnly`, resolved tag indices) and the others by id or custom name (`named`): SeriesTags.Get resolves the
     alias, so `by` hashes the tag, but the used/unused test of SeriesTags.hash does not know the alias: `by` then removes
     the tag from the result as unused, `without` does not exclude it.  After the fix the labels are simply
@@ -536,6 +537,39 @@ def evalChain (cfg : Cfg) (st : Store) (ts : TS) (selWhat : Option What) (nodes 
     (nodes.drop (red.upto + 1)).foldl (fun ss n => applyNode cfg ts n ss) (queryStorage st ts what groupBy red.step)
   | none =>
     nodes.foldl (fun ss n => applyNode cfg ts n ss) (queryStorage st ts (selWhat.getD .avg) allTags 0)
+
+/-! ### variant: the range of a subquery / matrix selector stored BEFORE its operand is evaluated (seeded/C27-r3-2)
+
+  evaluator.eval sets `ev.r = e.Range` AFTER evaluating the operand of a MatrixSelector / SubqueryExpr; every Call resets
+  `ev.r = 0` when it returns.  If the assignment is moved before the operand's evaluation, a Call executed inside the
+  operand (one that was not replaced by a reduction) leaves `ev.r = 0` behind and the outer window degenerates to a single
+  point.  `evalChain` models the real order (the node's own range is used); this variant models the mutation. -/
+
+def isCallNode : Node → Bool
+  | .ot _ _ _ => true
+  | .qot _ _ _ => true
+  | _ => false
+
+/-- the range the mutated evaluator uses for node `n` when `callBelow` says a Call was executed inside its operand -/
+def earlyRange (n : Node) (callBelow : Bool) : Node :=
+  match n with
+  | .ot f rng sub => .ot f (if sub && callBelow then 0 else rng) sub
+  | .qot q rng sub => .qot q (if sub && callBelow then 0 else rng) sub
+  | n => n
+
+def foldEarlyRange (cfg : Cfg) (ts : TS) : List Node → Bool → List Series → List Series
+  | [], _, ss => ss
+  | n :: ns, callBelow, ss => foldEarlyRange cfg ts ns (callBelow || isCallNode n) (applyNode cfg ts (earlyRange n callBelow) ss)
+
+def evalChainEarlyRange (cfg : Cfg) (st : Store) (ts : TS) (selWhat : Option What) (nodes : List Node) : List Series :=
+  let seed := if cfg.whatFix then selWhat else none
+  match evalReductionRules seed (astList 0 nodes) ts.lodStep with
+  | some red =>
+    let what := if cfg.whatFix then red.what.getD .avg else selWhat.getD .avg
+    let groupBy := if red.grouped then (if red.without then allTags.filter (fun t => !red.groupBy.contains t) else red.groupBy) else allTags
+    foldEarlyRange cfg ts (nodes.drop (red.upto + 1)) false (queryStorage st ts what groupBy red.step)
+  | none =>
+    foldEarlyRange cfg ts nodes false (queryStorage st ts (selWhat.getD .avg) allTags 0)
 
 /-- evaluator.exec: series without a present point in the view are removed, values trimmed to [StartX:] -/
 def exec (cfg : Cfg) (st : Store) (ts : TS) (selWhat : Option What) (nodes : List Node) : List Series :=
